@@ -819,6 +819,35 @@ pub fn gen_case(rng: &mut Rng, o: &GenOpts) -> Case {
     Case { src_kind, input, ops, sets, term, mode, panic_at: None }
 }
 
+/// large inputs and chunk sizes over several orders of magnitude, real threads: thresholds,
+/// polling periods and fast paths that only trigger at scale
+pub fn gen_large_case(rng: &mut Rng, terms: &[TermD], kinds_pool: &[&str], canary: bool) -> Case {
+    let kinds = *rng.pick(kinds_pool);
+    let ops: Vec<OpD> = kinds
+        .chars()
+        .map(|k| match k {
+            'X' => OpD::FlatMap { k: rng.range(1, 3) },
+            k => gen_op(rng, k),
+        })
+        .collect();
+    let term = rng.pick(terms).clone();
+    // the model's ordered bag is quadratic: keep map-only collects moderate
+    let map_only_collect = ops.iter().all(|o| matches!(o, OpD::Map { .. })) && matches!(term, TermD::CollectVec | TermD::Collect | TermD::CollectInto(..));
+    let len = if map_only_collect || matches!(term, TermD::CollectX | TermD::ForEach) { rng.range(1500, 4000) as usize } else { rng.range(6000, 30000) as usize };
+    let input = gen_input(rng, len, true);
+    let cz = *rng.pick(&[64usize, 512, 1024, 4096, 4096, 8192, 16384, len / 2 + 1, len / 3 + 1, len / 7 + 1]);
+    let nt = rng.range(2, 8) as usize;
+    let mut sets = vec![vec![]; ops.len() + 1];
+    sets[0] = vec![SetD::NtUsize(nt)];
+    match rng.below(5) {
+        0 => {}
+        1 | 2 => sets[0].push(SetD::CsEnum(ChunkSize::Exact(nz(cz)))),
+        _ => sets[0].push(SetD::CsEnum(ChunkSize::Min(nz(cz)))),
+    }
+    let src_kind = if canary { *rng.pick(&['V', 'K', 'U']) } else { *rng.pick(&['v', 'v', 'k', 'u']) };
+    Case { src_kind, input, ops, sets, term, mode: Mode::Free(0), panic_at: None }
+}
+
 pub fn gen_pred(rng: &mut Rng) -> PredD {
     let k = *rng.pick(&[1u64, 2, 3, 5, 7, 11, 50, 1000, 1_000_003]);
     PredD { k, r: rng.below(k.min(13)) }
@@ -942,6 +971,11 @@ pub fn run(out: &mut dyn Write, prop: &str, seed: u64, thorough: bool) -> std::i
                     }
                 }
             }
+            for _ in 0..n(60, 600) {
+                let c = gen_large_case(&mut rng, &t, &["M", "F", "MF", "P", "PF", "X", "XF", "MM"], false);
+                emit_case(out, "large", &c, false)?;
+                total_c.set(total_c.get() + 1);
+            }
         }
         "C02" => {
             let mut t = vec![TermD::First, TermD::FirstIdx];
@@ -996,15 +1030,31 @@ pub fn run(out: &mut dyn Write, prop: &str, seed: u64, thorough: bool) -> std::i
                 t.push(TermD::MinByKey(k));
                 t.push(TermD::MaxByKey(k));
             }
-            go(out, &mut rng, "reduce", &base(t), n(1500, 20000))?;
+            go(out, &mut rng, "reduce", &base(t.clone()), n(1500, 20000))?;
+            let tl: Vec<TermD> = t.iter().filter(|x| is_core_terminal(x)).cloned().collect();
+            for _ in 0..n(60, 600) {
+                let c = gen_large_case(&mut rng, &tl, &["", "M", "F", "MF", "P", "PF", "X", "XF"], false);
+                emit_case(out, "large", &c, false)?;
+                total_c.set(total_c.get() + 1);
+            }
         }
         "C04" => {
             go(out, &mut rng, "count", &base(vec![TermD::Count, TermD::ForEach]), n(1500, 20000))?;
+            for _ in 0..n(60, 600) {
+                let c = gen_large_case(&mut rng, &[TermD::Count, TermD::Count, TermD::ForEach], &["", "M", "F", "MF", "P", "PF", "X", "XF"], false);
+                emit_case(out, "large", &c, false)?;
+                total_c.set(total_c.get() + 1);
+            }
         }
         "C07" => {
             let mut o = base(vec![TermD::CollectX]);
             o.distinct_share = 3;
             go(out, &mut rng, "collect_x", &o, n(1200, 15000))?;
+            for _ in 0..n(40, 400) {
+                let c = gen_large_case(&mut rng, &[TermD::CollectX], &["M", "F", "MF", "P", "PF", "X", "XF"], false);
+                emit_case(out, "large", &c, false)?;
+                total_c.set(total_c.get() + 1);
+            }
         }
         "C05" => {
             let mut t = collects(&mut rng);
